@@ -19,6 +19,10 @@ Clause labels -> sentence of the property:
                       unmodified"
   finalize_applies    "applies the bindings the hooks return" (and then locks)
   hooks_see_parsed_config  "Finalizing runs every hook against the configuration as parsed"
+
+Two corner cases call finalize while a config_scope is active (signature suffix
+`inside_config_scope`); the property makes no exception for that situation.  They are kept
+out of the enumerations so that one finding cannot use up the violation budget.
 """
 import itertools
 
@@ -330,8 +334,8 @@ def _block(ops, i, st, fails, depth, how=None):
     _fail(fails, 'unlock_restores', 'locked=%s' % entry,
           'locked=%s' % gin.config_is_locked(),
           'exit=%s' % (type(exc).__name__ if exc else 'normal'))
-    gc._set_config_is_locked(entry)   # keep following the model after reporting
-  _audit(st, fails, 'unlock_restores', 'op=close state')
+  else:
+    _audit(st, fails, 'unlock_restores', 'op=close state')
   return i
 
 
